@@ -80,10 +80,12 @@ def classify(item: Dict[str, Any], key: str, what: str, twin: exprs.Twin) -> str
     expr = item["expr"]
     tree = ast.parse(expr, mode="eval")
     # mechanism keys are structural: which construct encloses / is the misreported sub-expression
-    for node in ast.walk(tree):
+    for idx, node in enumerate(twin.nodes):
         if isinstance(node, ast.BoolOp) and isinstance(node.op, ast.Or):
-            seg = ast.get_source_segment(expr, node) or ""
-            if seg and seg in key and key != seg:
+            seg = twin.node_text.get(idx, "")
+            vals = twin.values.get(idx, [])
+            # the `or` is part of the misreported text and CPython's value of it is not the object True
+            if seg and seg in key and key != seg and any(v is not True for v in vals):
                 return "C06/or-recomputed-as-true"
     if item.get("extra_params") and any(x in key for x in item["extra_params"]):
         return "C06/call-argument-shadows-condition-variable"
@@ -219,11 +221,10 @@ def judge(w, mod: Any, item: Dict[str, Any], twin: exprs.Twin, kwargs: Dict[str,
                 missing.append(text)
     if missing:
         key = "C06/evaluated-subexpression-not-listed"
-        tree = ast.parse(item["expr"], mode="eval")
-        for node in ast.walk(tree):
+        for idx, node in enumerate(twin.nodes):
             if isinstance(node, ast.BoolOp) and isinstance(node.op, ast.Or):
-                seg = ast.get_source_segment(item["expr"], node) or ""
-                if any(seg and seg in m for m in missing):
+                seg = twin.node_text.get(idx, "")
+                if any(seg and seg in m for m in missing) and any(v is not True for v in twin.values.get(idx, [])):
                     key = "C06/or-recomputed-as-true"
         w.violation(key, "not listed although Python evaluated them: {}".format(sorted(set(missing))[:5]), case, detail)
     if w.counters["messages_judged"] % 211 == 1:
@@ -301,7 +302,7 @@ def run_batch(w, batch_no: int, n_items: int, guarded_bias: float) -> None:
 
 def run(w) -> None:
     install_hook()
-    n_batches = (2400 if w.tier == "thorough" else 120)
+    n_batches = (6000 if w.tier == "thorough" else 400)
     for b in range(n_batches):
         if b % w.nshards != w.shard:
             continue
